@@ -67,6 +67,8 @@ func main() {
 		err = h.RunC18(*cases, *trace, *stats, *seed)
 	case "c10sm":
 		err = h.RunC10SM(*cases, *trace, *stats, *seed, *proj)
+	case "dscen":
+		err = h.RunDScen(*cases, *trace, *stats, *seed, *proj)
 	case "c12sm":
 		err = h.RunC12SM(*cases, *trace, *stats, *seed, *proj)
 	case "c07sm":
